@@ -325,7 +325,11 @@ class JankStringyBytes(bytes):
         return super().__eq__(other)
 
     def __ne__(self, other):
-        return not self.__eq__(other)
+        eq = self.__eq__(other)
+        # `not NotImplemented` would claim we're equal to things we can't be compared to
+        if eq is NotImplemented:
+            return NotImplemented
+        return not eq
 
     def __contains__(self, item):
         if isinstance(item, str):
